@@ -130,6 +130,55 @@ def step (st : St) (line : List String) : St × String :=
     | _, _, _, _ => (st, "bad-op")
   | _ => (st, "bad-op")
 
-def handler : Driver.Handler := { σ := St, init := {}, step := step }
+/-- `v/h1,h2/a1,a2` (`-` = empty list) -/
+def parseList (s : String) : Option (List Nat) :=
+  if s = "-" then some [] else (s.splitOn ",").mapM Driver.parseNat
+
+def parseSeg (s : String) : Option Seg :=
+  match s.splitOn "/" with
+  | [v, h, a] =>
+    match Driver.parseNat v, parseList h, parseList a with
+    | some v, some h, some a => some { v := v, hs := h, ans := a }
+    | _, _, _ => none
+  | _ => none
+
+/-- `find g kp seg…` — one discovery round (`Group.doFind`): `asked=v:limit,… c=… k=… n=…` -/
+def findStep (st : St) (g kp : Nat) (script : List Seg) : St × String :=
+  withGroup st g fun ge =>
+    let nbr := fun p => st.nbr.contains p
+    let r := doFind kp script nbr ge.g
+    let g' := applyAll ge.g r.2
+    let asked := if r.1.isEmpty then "-" else ",".intercalate (r.1.map (fun a => s!"{a.v}:{a.lim}"))
+    ({ st with node := updGroup st.node g (fun ge => { ge with g := g' }) },
+      s!"asked={asked} c={peersStr g'.connected} k={peersStr g'.kept} n={peersStr g'.known}")
+
+/-- `burst f o base n g f2` — `n` distinct messages `(o, base … base+n-1)` for gid `g` from neighbour
+    `f`, then (within the window) a duplicate of the first one from `f2`:
+    `notified=<count> fwd=<count> dup=<notified><fwd>` -/
+def burstStep (st : St) (f : Nat) (o : Option Nat) (base n g f2 : Nat) : St × String :=
+  withGroup st g fun _ =>
+    let run := (List.range n).foldl (fun (acc : Node × Nat × Nat) i =>
+      let r := onMulticast acc.1 { origin := o, id := base + i, gid := g } f []
+      (r.node, acc.2.1 + (if r.notified then 1 else 0), acc.2.2 + (if r.forwarded then 1 else 0)))
+      (st.node, 0, 0)
+    let d := onMulticast run.1 { origin := o, id := base, gid := g } f2 []
+    ({ st with node := d.node },
+      s!"notified={run.2.1} fwd={run.2.2} dup={Driver.boolStr d.notified}{Driver.boolStr d.forwarded}")
+
+def step' (st : St) (line : List String) : St × String :=
+  let (op, _) := splitBar line
+  match op with
+  | "find" :: g :: kp :: segs =>
+    match Driver.parseNat g, Driver.parseNat kp, segs.mapM parseSeg with
+    | some g, some kp, some script => findStep st g kp script
+    | _, _, _ => (st, "bad-op")
+  | ["burst", f, o, base, n, g, f2] =>
+    match Driver.parseNat f, parseOrigin o, Driver.parseNat base, Driver.parseNat n, Driver.parseNat g, Driver.parseNat f2 with
+    | some f, some (some o), some base, some n, some g, some f2 =>
+      if n = 0 ∨ n > 5000 then (st, "bad-op") else burstStep st f (some o) base n g f2
+    | _, _, _, _, _, _ => (st, "bad-op")
+  | _ => step st line
+
+def handler : Driver.Handler := { σ := St, init := {}, step := step' }
 
 end Driver.C38
